@@ -79,4 +79,106 @@ theorem vstep_sim (s : Vml) (v : Shapes) (o : VOp) (hi : s.Inv) (hc : s.cur = v)
           subst hc
           simp [vstep, vspecStep, Vml.read, Vml.decode, Vml.Inv, Vml.cur]
 
+/-! ### decoded parts in general -/
+
+/-- the writer leaves what the readers see unchanged — unconditionally when it keeps the loaded
+value, and given the round-trip law of the part's XML binding when it drops it (the value is
+re-derived from the bytes just written) -/
+theorem slot_write_view {α β : Type} (c : Codec α β) (zero : α) (g : α → Bool) (consumes : Bool)
+    (hrt : consumes = true → c.RoundTrip) (s : Slot α β) :
+    (s.write c g consumes).view c zero = s.view c zero := by
+  obtain ⟨l, p⟩ := s
+  cases l with
+  | none => rfl
+  | some a =>
+    unfold Slot.write
+    simp only []
+    cases hg : g a with
+    | false => simp
+    | true =>
+      cases consumes with
+      | false => simp [Slot.view, Slot.read]
+      | true => simp [Slot.view, Slot.read, hrt rfl a]
+
+/-- running a writer twice leaves the state (loaded value and bytes) of running it once -/
+theorem slot_write_idem {α β : Type} (c : Codec α β) (g : α → Bool) (consumes : Bool) (s : Slot α β) :
+    (s.write c g consumes).write c g consumes = s.write c g consumes := by
+  obtain ⟨l, p⟩ := s
+  cases l with
+  | none => rfl
+  | some a =>
+    unfold Slot.write
+    simp only []
+    cases hg : g a with
+    | false => simp [hg]
+    | true => cases consumes <;> simp [hg]
+
+/-- the bytes a writer stores are the rendering of what the readers saw -/
+theorem slot_write_part {α β : Type} (c : Codec α β) (zero : α) (g : α → Bool) (consumes : Bool)
+    (s : Slot α β) (a : α) (hl : s.loaded = some a) (hg : g a = true) :
+    (s.write c g consumes).part = some (c.enc (s.view c zero)) := by
+  obtain ⟨l, p⟩ := s
+  simp only at hl
+  subst hl
+  simp [Slot.write, hg, Slot.view, Slot.read]
+
+theorem sstep_sim {α β : Type} (c : Codec α β) (zero : α) (g : α → Bool) (consumes : Bool)
+    (hrt : consumes = true → c.RoundTrip) (s : Slot α β) (a : α) (o : SOp α) (h : s.view c zero = a) :
+    (sstep c zero g consumes s o).2 = (sspecStep a o).2 ∧
+    (sstep c zero g consumes s o).1.view c zero = (sspecStep a o).1 := by
+  cases o with
+  | update f =>
+    obtain ⟨l, p⟩ := s
+    cases l <;> simp_all [sstep, sspecStep, Slot.update, Slot.read, Slot.view]
+  | read =>
+    obtain ⟨l, p⟩ := s
+    cases l <;> simp_all [sstep, sspecStep, Slot.read, Slot.view]
+  | save =>
+    refine ⟨rfl, ?_⟩
+    simp only [sstep, sspecStep]
+    rw [slot_write_view c zero g consumes hrt s]; exact h
+
+theorem srun_sim {α β : Type} (c : Codec α β) (zero : α) (g : α → Bool) (consumes : Bool)
+    (hrt : consumes = true → c.RoundTrip) : ∀ (ops : List (SOp α)) (s : Slot α β) (a : α),
+    s.view c zero = a →
+    (srun c zero g consumes s ops).2 = (sspec a ops).2 ∧
+    (srun c zero g consumes s ops).1.view c zero = (sspec a ops).1 := by
+  intro ops
+  induction ops with
+  | nil => intro s a h; exact ⟨rfl, h⟩
+  | cons o os ih =>
+    intro s a h
+    obtain ⟨e1, v1⟩ := sstep_sim c zero g consumes hrt s a o h
+    obtain ⟨e2, v2⟩ := ih _ _ v1
+    simp only [srun, sspec]
+    exact ⟨by rw [e1, e2], v2⟩
+
+theorem savePkg_view {α β : Type} (c : Codec α β) (zero : α) (g : α → Bool) :
+    ∀ (fs : List Bool) (ss : List (Slot α β)), (∀ f ∈ fs, f = true → c.RoundTrip) →
+    (savePkg c g fs ss).map (Slot.view c zero) = ss.map (Slot.view c zero) := by
+  intro fs
+  induction fs with
+  | nil => intro ss _; cases ss <;> rfl
+  | cons f fs ih =>
+    intro ss hrt
+    cases ss with
+    | nil => rfl
+    | cons s ss =>
+      simp only [savePkg, List.map_cons]
+      rw [slot_write_view c zero g f (hrt f List.mem_cons_self) s,
+        ih ss (fun x hx => hrt x (List.mem_cons_of_mem _ hx))]
+
+theorem savePkg_idem {α β : Type} (c : Codec α β) (g : α → Bool) : ∀ (fs : List Bool) (ss : List (Slot α β)),
+    savePkg c g fs (savePkg c g fs ss) = savePkg c g fs ss := by
+  intro fs
+  induction fs with
+  | nil => intro ss; cases ss <;> rfl
+  | cons f fs ih =>
+    intro ss
+    cases ss with
+    | nil => rfl
+    | cons s ss =>
+      simp only [savePkg]
+      rw [slot_write_idem c g f s, ih ss]
+
 end XlModel.SaveWriters
